@@ -323,6 +323,11 @@ class FormulaMaterializer(metaclass=FormulaMaterializerMeta):
             overrides: dict[str, Any] = {
                 "materializer": self.REGISTER_NAME,
                 "materializer_params": self.params,
+                # The state dictionaries are mutated in place during
+                # materialization; work on copies so that the caller's spec
+                # (which may be reused on other data) is left untouched.
+                "transform_state": dict(model_spec.transform_state),
+                "encoder_state": dict(model_spec.encoder_state),
             }
 
             if model_spec.output is None:
